@@ -170,8 +170,57 @@ def run_nested_glob(spec):
     return {'viol': list(V), 'evals': V.evals, 'nontrivial': True, 'classes': ['nested_glob'], 'summary': {'agents': len(spec['agents'])}}
 
 
+def run_parallel(spec):
+    """A process marked _parallel (it lives in a worker; the engine talks to a wrapper) that carries a schema
+    override: the store is built from the overridden declaration, through every entry point."""
+    from vivarium.core.engine import Engine
+    from vivarium.core.composer import Composite
+    from vmon.sensors import plain_values, Declared
+    V = Viol()
+    d0, d1 = spec['default'], spec['override']
+    for mode in spec['modes']:
+        params = {'schema': {'S': {'level': {'_default': d0}, 'cap': {'_default': 10.0}}}, '_parallel': True}
+        ov = {'S': {'level': {'_default': d1}}}
+        if spec['via'] == 'param':
+            params['_schema'] = ov
+        comp = Composite({'processes': {'p': Declared(params)}, 'topology': {'p': {'S': ('s',)}}})
+        if spec['via'] == 'merge':
+            comp.merge(schema_override={'p': ov})
+        init = {'s': {'cap': 3.0}} if spec['given'] else {}
+        e = None
+        try:
+            if mode == 'parts':
+                e = Engine(processes=comp['processes'], topology=comp['topology'], initial_state=init, display_info=False, emitter='null')
+            elif mode == 'composite':
+                e = Engine(composite=comp, initial_state=init, display_info=False, emitter='null')
+            else:
+                e = Engine(store=comp.generate_store({'initial_state': init}), display_info=False, emitter='null')
+            got = plain_values(e.state.get_value())['s']
+            V.check('default_value', _same(got.get('level'), d1) and _same(got.get('cap'), 3.0 if spec['given'] else 10.0),
+                    lambda: ('parallel process with a schema override (via %s, default %r overridden by %r), built through %s: s = %r' % (
+                        spec['via'], d0, d1, mode, got)))
+            if mode == 'composite':
+                ds = comp.default_state()
+                V.check('default_state_placement', _same(ds.get('s', {}).get('level'), d1),
+                        lambda: ('default_state() of the composite the engine was built from (its process now runs in a worker): %r, '
+                                 'overridden default %r' % (ds, d1)))
+        except Exception as ex:
+            V.check('default_value', False, ('construction of a parallel process through %s raised' % mode, type(ex).__name__, str(ex)[:200]))
+        finally:
+            if e is not None:
+                try:
+                    e.end()
+                except Exception:
+                    pass
+    return {'viol': list(V), 'evals': V.evals, 'nontrivial': True, 'classes': ['parallel_override'], 'summary': {'via': spec['via']}}
+
+
 def gen(r, tier, i):
     k = r.random()
+    if i % 400 == 3:
+        return {'family': 'parallel', 'default': r.choice([1.0, 0, 5]), 'override': r.choice([7.5, 0.0, False, [], 2]),
+                'via': r.choice(['param', 'merge']), 'given': r.random() < 0.5,
+                'modes': r.sample(['parts', 'composite', 'store'], 2)}
     if k < 0.03:
         return {'family': 'nested_glob', 'default': r.choice([0.5, 0, 7, False]), 'agents': ['a%d' % j for j in range(r.randint(1, 3))],
                 'vars': r.sample(['glc', 'atp', 'x'], r.randint(1, 3)), 'order': r.random() < 0.5}
@@ -217,6 +266,8 @@ def _same(a, b):
 def run(spec):
     if spec.get('family') == 'globs':
         return run_globs(spec)
+    if spec.get('family') == 'parallel':
+        return run_parallel(spec)
     if spec.get('family') == 'nested_glob':
         return run_nested_glob(spec)
     from vivarium.core.engine import Engine
